@@ -65,6 +65,8 @@ type Node struct {
 	Panic string
 	// Removed: stopped for good because the committed configuration no longer contains it
 	Removed bool
+	// ForceApplied: pass Config.Applied also on the first start (node fuzzing from an arbitrary storage)
+	ForceApplied bool
 
 	// async storage threads
 	AppendQ []*pb.Message
@@ -168,7 +170,7 @@ func (n *Node) Start(applied uint64, restart bool) bool {
 	cfg := n.Cfg
 	cfg.Storage = n.St
 	cfg.Applied = applied
-	if !restart {
+	if !restart && !n.ForceApplied {
 		// Config.Applied "should only be set when restarting raft"
 		cfg.Applied = 0
 	}
